@@ -635,6 +635,8 @@ func permutations(n int) [][]int {
 	return out
 }
 
+var early []Case
+
 func TestC06(t *testing.T) {
 	if ev.Replaying() != nil {
 		var c Case
@@ -760,7 +762,18 @@ func TestC06(t *testing.T) {
 				}
 				ev.Fail(rt, "icc", k, w, c)
 			}
+			if len(early) < 300 && len(c.Data) < 200000 {
+				early = append(early, c)
+			}
 		})
+	}
+	// the first 300 files once more, after everything else has been loaded
+	for _, c := range early {
+		ev.Eval(1)
+		if k, w := check(c); k != "" {
+			ev.Violation("icc", k, "loaded again after many other files: "+w, c)
+			break
+		}
 	}
 	if ev.Violations() > 0 {
 		t.Fail()
